@@ -2,8 +2,13 @@
 
 package simrt
 
+import "unsafe"
+
 // RaceBuild reports whether the binary was built with -race.
 const RaceBuild = false
 
 func raceDisable() {}
 func raceEnable()  {}
+
+func RaceAcquire(p unsafe.Pointer)      {}
+func RaceReleaseMerge(p unsafe.Pointer) {}
